@@ -40,9 +40,11 @@ class Ctx:
             fdir, th, gen, secs = factcache.ensure(self.repo)
             self.fact_hash = th
             self.fact_info = {"fact_dir": fdir, "generated_now": gen, "fact_seconds": round(secs, 1)}
-            if fdir not in _FACTS_MEMO:
-                _FACTS_MEMO[fdir] = Facts(fdir)
-            self._facts = _FACTS_MEMO[fdir]
+            crates = getattr(self, "crates", None)
+            mk = (fdir, tuple(crates) if crates else None)
+            if mk not in _FACTS_MEMO:
+                _FACTS_MEMO[mk] = Facts(fdir, crates)
+            self._facts = _FACTS_MEMO[mk]
         return self._facts
 
     def src(self, rel):
@@ -112,6 +114,7 @@ def run_property(prop, tier="quick", seed=0, replay=None, out=sys.stdout):
     t0 = time.time()
     ctx = Ctx(prop, tier, seed)
     mod = importlib.import_module("pv.rules.%s" % prop.lower())
+    ctx.crates = getattr(mod, "CRATES", None)   # fact files this property needs (None = all)
     only_key = None
     if replay:
         with open(replay) as fh:
